@@ -377,3 +377,51 @@ REGISTRY["C08"] = {
           listener_struct="HttpsListenerConfig", patch_struct="UpdateHttpsListenerConfig", replay_filter="accepted_patch"),
     ],
 }
+
+REGISTRY["C02"] = {
+    "engine": "mir",
+    "technique": "symbolic execution of the MIR of mux::shared::end_stream_decision and mux::router::Router::connect into SMT (z3 + cvc5)",
+    "level_text": "z3 and cvc5 both decide that the real end_stream_decision is exactly the documented total table over (backend response started, response terminated, keep-alive backend, request consumed): forward the response only if one exists, abort (never 'terminated') when a keep-alive backend vanished mid-response, 502 iff no response and the request was consumed, retry only if nothing of the request was consumed, and no other status than 502; and that in Router::connect every backend connection attempt is preceded by the retry-budget test, consumes exactly one retry, happens only below CONN_RETRIES, and the u8 counter cannot overflow. Function level, all paths.",
+    "level_note": "The connect-error -> status mapping and timeout arms live in generic Mux<Front, L> methods that build default answers over pooled kawa buffers; liveness (no request unanswered beyond timeouts), exactly-once on the wire and isolation between streams need the running mux and are outside the claim.",
+    "rule": "C02: decision table + retry budget.",
+    "trusted_base": ["field-name tables parsed from lib/src/protocol/mux/stream.rs, kawa_h1/editor.rs and the kawa crate source"],
+    "assumptions": ["Kawa::is_main_phase / is_terminated are arbitrary booleans (external crate)"],
+    "residual": "default-answer status mapping (404/401/421/429/503/504/408), timeouts, set_default_answer arming WRITABLE, RST/abort on the wire, multi-stream isolation.",
+    "obligations": [
+        M("c02_end_stream_decision_table", "whole function; the four inputs fully symbolic", "each of the 5 decisions is chosen exactly under its documented condition; questions are asked of stream.back; SendDefault carries 502 only", ["lib/src/protocol/mux/shared.rs"], prop="c02", which="decision"),
+        M("c02_retry_budget", "whole function (290 blocks), loops unrolled 2x, callees uninterpreted", "counter advanced only below CONN_RETRIES, by exactly one, cannot overflow; backend_from_request / new_h1_client / new_h2_client / start_stream reachable only after the counter was advanced and only below the budget", ["lib/src/protocol/mux/router.rs"], prop="c02", which="retry"),
+    ],
+}
+
+BK = ["lib/src/backends.rs", "lib/src/retry.rs"]
+REGISTRY["C12"] = {
+    "engine": "mir",
+    "technique": "symbolic execution of the MIR of the per-backend eligibility predicates and connection counters into SMT (z3 + cvc5)",
+    "level_text": "z3 and cvc5 both decide that Backend::can_open is exactly healthy && status == Normal && can_try() == Some(OKAY), that Backend::is_available is exactly healthy && status == Normal && !is_down() (the compared constants are read from the promoted MIR constants), and that one inc_connections / dec_connections step from an arbitrary (status, active_connections) never wraps, changes the count by exactly one only when allowed, never touches a Closed backend, and retires a Closing backend exactly when it reaches zero - an inductive step, so counts return to zero iff increments on Normal equal decrements, for any history.",
+    "level_note": "The backend *list* (cascade primary -> backup -> fail-open, sticky lookup, policies, Maglev/HRW) could not be executed by CBMC (measured out of memory at 2 backends) and is not encoded here either; back-off arithmetic (random_range, Instant) is not claimed.",
+    "rule": "C12: one obligation per predicate / counter function.",
+    "trusted_base": [],
+    "assumptions": ["HealthState::is_healthy, RetryPolicy::can_try / is_down and the derived PartialEq::eq of the two field-less enums are arbitrary booleans; eq's operands are checked to be (self.status, Normal) and (action, OKAY)"],
+    "residual": "BackendList cascade and filters, find_sticky, load-balancing policies, Maglev rebuild, BackendMap, runtime removal by address, exponential back-off arithmetic, health-check transitions.",
+    "obligations": [
+        M("c12_can_open_is_eligibility", "whole function; all inputs symbolic", "can_open <=> healthy && status == Normal && can_try() == Some(OKAY)", BK, prop="c12", which="predicate", fn="can_open"),
+        M("c12_is_available_predicate", "whole function", "is_available <=> healthy && status == Normal && !is_down()", BK, prop="c12", which="predicate", fn="is_available"),
+        M("c12_inc_connections_step", "arbitrary (status, active_connections)", "count +1 exactly on Normal backends, untouched otherwise", BK[:1], prop="c12", which="counters", fn="inc_connections"),
+        M("c12_dec_connections_step", "arbitrary (status, active_connections)", "never below zero; -1 exactly when positive and not Closed; Closing reaching zero becomes Closed, nothing else changes the status", BK[:1], prop="c12", which="counters", fn="dec_connections"),
+    ],
+}
+
+REGISTRY["C16"] = {
+    "engine": "mir",
+    "technique": "symbolic execution of the MIR of SessionManager::check_limits / incr / decr into SMT (z3 + cvc5)",
+    "level_text": "z3 and cvc5 both decide that check_limits returns true exactly when nb_connections < max_connections and the slab is not at capacity, and closes the accept gate on every refusal; that incr called under the caller protocol (check_limits returned true) adds exactly one and can neither overflow nor trip its hard assert, so nb_connections <= max_connections is preserved; and that decr from 1 <= nb <= max <= 2^20 subtracts exactly one, cannot underflow or overflow, and re-opens accepting exactly when the gate was closed and the new count is below 90 % of the maximum. Inductive single steps.",
+    "level_note": "Only the admission arithmetic. Per-(cluster, IP) tracking (nested HashMaps + HashSet), slab entry removal on teardown, pooled buffers, timers, zombie reaping, accept queue and gauges are container/IO state and are outside the claim.",
+    "rule": "C16: admission step obligations.",
+    "trusted_base": ["field indices parsed from lib/src/server.rs (struct SessionManager)"],
+    "assumptions": ["at_capacity() is an arbitrary boolean", "max_connections <= 2^20 for the 90 % threshold multiplication"],
+    "residual": "everything but the global connection counter: per-IP limits, session table, buffers, timers, gauges, accept queue.",
+    "obligations": [
+        M("c16_check_limits_gate", "arbitrary (nb_connections, max_connections, at_capacity)", "true <=> nb < max && !at_capacity; a refusal always clears can_accept; nothing else is written", SV, prop="c16", which="check_limits"),
+        M("c16_incr_decr_step", "incr under nb < max; decr under 1 <= nb <= max <= 2^20", "exactly +1 / -1, no panic, no overflow; accepting resumes iff gate closed and nb' < max*90/100", SV, prop="c16", which="incr_decr"),
+    ],
+}
